@@ -19,6 +19,7 @@ import Driver.ParamCmd
 import Driver.GatesCmd
 import Driver.GrammarCmd
 import Driver.TkCmd
+import Driver.TensorCmd
 
 def handlers : List (String → List String → Option String) :=
   [ DV.CoreCmd.handle
@@ -34,6 +35,7 @@ def handlers : List (String → List String → Option String) :=
   , DV.GatesCmd.handle
   , DV.GrammarCmd.handle
   , DV.TkCmd.handle
+  , DV.TensorCmd.handle
   ]
 
 def handle (line : String) : String :=
